@@ -194,7 +194,8 @@ def spec_values(spec):
     else:
         raise ValueError(vk)
     if "vals" in spec:  # explicit values (flat list) override the arithmetic pattern
-        v = np.array([float("nan") if x == "NaN" else x for x in spec["vals"]], dtype={"f": float, "i": int, "b": bool, "s": object}[vk])
+        special = {"NaN": float("nan"), "inf": float("inf"), "-inf": float("-inf")}
+        v = np.array([special[x] if isinstance(x, str) and x in special and vk == "f" else x for x in spec["vals"]], dtype={"f": float, "i": int, "b": bool, "s": object}[vk])
     return v.reshape(shape)
 
 
